@@ -17,9 +17,16 @@ func init() {
 func checkC13(w *World, tier string) *Report {
 	r := newReport("C13")
 	r.Explanation = "R13.1 wrapper summary of Tracer.TransferWithRecord (its body is a straight statement list, checked as such): exactly one call of the transfer parameter with (db, from, to, amount) in order; before it saveBalance(from, …) then saveBalance(to, …), after it the same two in the same order; each recorded balance is db.GetBalance of the same account evaluated in that statement; all four use one call-index variable read from CurrentCallIndex before the transfer and never re-assigned; " +
-		"R13.2 who-may-call over all fork packages: a TransferFunc value is invoked only inside TransferWithRecord; TransferWithRecord is called exactly from Call and create (after the snapshot, R4.2) with evm.Context.Transfer; saveBalance is called only from TransferWithRecord; the balance root's change list is written only through saveBalance/JournalChanges. R13.3 (SSA, all paths) every observation is recorded: saveBalance reaches StorageKey.JournalChanges on every path, with its own call-index parameter and the bytes of its own balance parameter, and JournalChanges always reaches StorageChanges.append, whose only suppression is the per-call repeat test (C10 R10.5) — no cache outside the per-call list can drop a frame's before/after entry. Equality with the true balances then holds by construction given a truthful StateDB.GetBalance."
+		"R13.2 who-may-call over all fork packages: a TransferFunc value is invoked only inside TransferWithRecord; TransferWithRecord is called exactly from Call and create (after the snapshot, R4.2) with evm.Context.Transfer; saveBalance is called only from TransferWithRecord; the balance root's change list is written only through saveBalance/JournalChanges. R13.3 (SSA, all paths) every observation is recorded: saveBalance reaches StorageKey.JournalChanges on every path, with its own call-index parameter and the bytes of its own balance parameter, and JournalChanges always reaches StorageChanges.append, whose only suppression is the per-call repeat test (C10 R10.5) — no cache outside the per-call list can drop a frame's before/after entry. R11.5 / R16.4 (shared) the root record of an account is never replaced and the recorder and its call tree are never re-created, so recorded entries are neither dropped nor mixed with a later transaction's. Equality with the true balances then holds by construction given a truthful StateDB.GetBalance."
 	addR131(w, r, "R13.1")
 	addR133(w, r, "R13.3")
+	// no recorded observation is lost or re-filed: the account's root record (which holds the balance list) is
+	// never replaced (write-once node tables, shared with C11), and the recorder with its call tree is the one
+	// the EVM was constructed with (shared with C16) — a fresh call tree would restart the call indices the
+	// balance lists are keyed by
+	addWriteOnceRule(w, r, "R11.5")
+	addFreshTracerRule(w, r, "R16.4")
+	addMonotoneIndexRule(w, r, "R10.8")
 	// R13.2
 	p := w.Pkgs[forkPath(pkVM)]
 	var bad []string
